@@ -74,3 +74,25 @@ CHECKS["C08"] = {
     "explanation": "symbolic letters, fully symbolic scoring matrix; oracle = explicit enumeration of all competing alignments; max-plus DP in SMT Int with overflow obligations",
     "outside": "sequences longer than the stated n x m, alphabets with more than k letters, scores outside [-4,4]",
 }
+
+
+def c20_jobs(tier):
+    jobs = []
+    ks = [1, 2, 3] if tier == "quick" else [1, 2, 3, 4]
+    for k in ks:
+        jobs.append({"pkgdir": "feat/gene", "func": "VerifC20_Tiling", "math": True,
+                     "params": {"k": k, "maxoff": 8 if k < 4 else 9, "maxlen": 4 if k < 4 else 3}})
+    for k in ([1, 2] if tier == "quick" else [1, 2, 3]):
+        for spare in (0, 1, 2):
+            jobs.append({"pkgdir": "feat/gene", "func": "VerifC20_Atomic", "math": True, "params": {"k": k, "spare": spare}})
+    jobs.append({"pkgdir": "feat", "func": "VerifC20_OneZero", "params": {}})
+    return jobs
+
+
+CHECKS["C20"] = {
+    "jobs": c20_jobs,
+    "functions": ["gene.Exons.{Add,Introns,SplicedLen,Start,End,Location,Less,Swap}", "gene.buildExonsFor", "(*CodingTranscript).{SetExons,UTR5,CDS,UTR3,...}", "(*NonCodingTranscript).SetExons", "(*Gene).SetFeatures",
+                  "feat.{BasePositionOf,PositionWithin,BaseOrientationOf,OrientationWithin,OneToZero,ZeroToOne}", "sort.Sort (executed)"],
+    "explanation": "symbolic exon offsets/lengths in arbitrary order (all sort orders explored), symbolic CDS bounds, offsets and orientations at transcript and gene level; acceptance is compared with an independent specification; capacity histories built with make(Exons,0,k+spare)",
+    "outside": "more than 4 exons, offsets beyond the stated range, nesting deeper than exon/transcript/gene/chromosome, the two extreme int values for 1-/0-based conversion",
+}
